@@ -94,6 +94,16 @@ CHECKS["C06"] = dict(
     note="Bound: 4-call history + close(), two failures, <= 2 (thorough 3) resolved addresses. " + NETNOTE,
     design="3 (C06)", technique=CH)
 
+CHECKS["C09"] = dict(
+    text="Bounded symbolic execution of PooledClient + ObjectPool + Client over NetSim with a virtual pool clock: one faulty "
+         "call (symbolic index, position, kind), symbolic idle gaps and pool_idle_timeout, symbolic ignore_exc; after every "
+         "call: failed sockets closed and never reused, healthy ones reused unless idle longer than the timeout (then closed), "
+         "zero checked-out connections, no 'Too many objects'. Plus every pruned 6-action sequence of get/release/destroy/"
+         "clock-advance on the real ObjectPool with up to 3 objects out, against the never-hand-out-closed-or-expired "
+         "invariant. All shards exhaust.",
+    note="Bound: 3-call histories, one faulty call, pool sequences of 6 (thorough 7) actions. " + NETNOTE,
+    design="3 (C09)", technique=CH)
+
 NOT_YET = {}
 
 NA_REASON_PENDING = "check not built yet in this session (planned; see DESIGN.md section 3)"
